@@ -297,3 +297,64 @@ Fixpoint depth (fuel : nat) (cs : list hobj) (i : nat) : nat :=
   | O => O
   | S f => S (fold_right (fun k acc => Nat.max (depth f cs k) acc) O (kids (nth i cs (HLeaf KAny))))
   end.
+
+(* ---------- State::mutated / State::release_cycles (src/state.rs): every in-place modification of an
+   existing cell registers the cell; reset() and Drop empty the registered cells that are still alive.
+   step_mut = the cells a step registers (stack_ops.rs: APPEND, SETITEM, SETITEMS, ADDITEMS register
+   the container they changed, APPENDS the cell under the popped items, BUILD the popped instance). ---------- *)
+Definition step_mut (h : heap) (t : token) : list nat :=
+  let st := hstk h in
+  match fst t with
+  | APPEND =>
+      match st with
+      | _ :: c :: _ => match cell h c with HSeq KList _ => [c] | _ => [] end
+      | _ => []
+      end
+  | APPENDS => match snd (hpop_to_mark h st) with c :: _ => [c] | [] => [] end
+  | ADDITEMS =>
+      match snd (hpop_to_mark h st) with
+      | c :: _ => match cell h c with HSeq KSet _ => [c] | _ => [] end
+      | [] => []
+      end
+  | SETITEM =>
+      match st with
+      | _ :: _ :: c :: _ => match cell h c with HDict _ => [c] | _ => [] end
+      | _ => []
+      end
+  | SETITEMS =>
+      match snd (hdict_pop h (S (length st)) st) with
+      | c :: _ => match cell h c with HDict _ => [c] | _ => [] end
+      | [] => []
+      end
+  | BUILD => match st with _ :: i :: _ => [i] | _ => [] end
+  | _ => []
+  end.
+
+(* the registry after a history (in registration order) *)
+Fixpoint run_mut (v : version) (h : heap) (ts : list token) : list nat :=
+  match ts with
+  | [] => []
+  | t :: r => step_mut h t ++ run_mut v (heap_step v h t) r
+  end.
+
+(* StackObject::detach_children *)
+Definition emptied (o : hobj) : hobj :=
+  match o with
+  | HLeaf k => HLeaf k
+  | HSeq k _ => HSeq k []
+  | HDict _ => HDict []
+  | HInst _ _ => HLeaf KInstance        (* callable and args replaced by fresh leaves *)
+  | HCall _ => HLeaf KCallable
+  end.
+
+Fixpoint release_at (i : nat) (cs : list hobj) (ms : list nat) : list hobj :=
+  match cs with
+  | [] => []
+  | o :: r => (if existsb (Nat.eqb i) ms then emptied o else o) :: release_at (S i) r ms
+  end.
+(* State::release_cycles on the cell table *)
+Definition release (cs : list hobj) (ms : list nat) : list hobj := release_at 0 cs ms.
+
+(* what is left when a generation ends and the generator is reset or dropped *)
+Definition final_cells (v : version) (ts : list token) : list hobj :=
+  release (cells (heap_run v (heap_init v) ts)) (run_mut v (heap_init v) ts).
